@@ -72,7 +72,7 @@ def restore(sb, files, initial):
             write(p, c)
 
 
-def run_batch(srv, batch, kind, tag):
+def run_batch(srv, batch, kind, tag, patience=0.3):
     """sends all requests of the batch from distinct sockets and drives each mini-transfer. returns list of results"""
     res = []
     socks = {}
@@ -86,7 +86,7 @@ def run_batch(srv, batch, kind, tag):
         socks[s] = r
         raw = name if isinstance(name, bytes) else name.encode("utf-8", "surrogateescape")
         s.sendto(N.enc_req(N.RRQ if kind == "RRQ" else N.WRQ, raw), srv.addr)
-    deadline = time.time() + 0.3
+    deadline = time.time() + patience
     pending = set(socks)
     while pending and time.time() < deadline:
         rl, _, _ = select.select(list(pending), [], [], max(0.0, deadline - time.time()))
@@ -226,6 +226,13 @@ def run_config(v, ctx, tftpd, thorough, names, cfgname, dist, ow, rng):
                     classes[cls] = classes.get(cls, 0) + 1
                     distinct.add((cfgname, kind, name))
                     replay = {"engine": "net", "config": cfgname, "kind": kind, "name": name, "reference_resolution": ref, "server_args": srv.args, "reply": r["reply"], "error": r["error"]}
+                    if escapes and r["reply"] is None:
+                        # no reply inside the batch window: ask again alone with a generous timeout before judging
+                        # (a slow answer on a loaded machine is not a missing answer)
+                        again = run_batch(srv, [name], kind, f"{cfgname}-{kind}-retry", patience=2.5)[0]
+                        r["reply"], r["error"], r["data"] = again["reply"], again["error"], again["data"]
+                        replay["retried_alone"] = True
+                        replay["reply"] = r["reply"]
                     if escapes and r["reply"] != "ERROR":
                         v.violation(f"C03/escaping-name-not-refused/{kind}", f"{cfgname}: {kind} {name!r} resolves to {ref} outside {base} but was answered {r['reply']} (data={r['data']!r:.60})", replay)
                     if kind == "RRQ" and r["data"] is not None:
